@@ -461,7 +461,9 @@ Proof.
     destruct (alias i j) eqn:Ea; cbn [andb].
     - destruct (Nat.ltb (Z.to_nat i) (length (n_devs n2))) eqn:El.
       + right. intros _. unfold dev_pending, d3. cbn [d_claim_timer]. unfold c_N2kAddressClaimTimeout.
-        apply armed_pending. intros Hw. rewrite T3, O3. apply Hclk. congruence.
+        apply armed_pending. intros Hw. rewrite T3, O3. apply Hclk; [congruence|].
+        unfold is_ready_to_send in Hrdy. unfold claims_addresses. rewrite <- O2.
+        destruct (n_open n0 =? 3); [exact Hrdy|discriminate].
       + left. apply Nat.ltb_ge in El.
         assert (Hlen: length (n_devs n2) = length (n_devs n)).
         { unfold dev_count in *. apply Nat2Z.inj. congruence. }
